@@ -66,6 +66,8 @@ OPS = [
     (r"Some\(([a-z_]+)\) =>", r"Some(\1) if false =>"),
     (r"\.drain\(\.\.", ".drain(1.."),
     (r"<<", ">>"), (r"!\(", "("),
+    # statement deletion: a whole line that is one call / assignment statement becomes empty
+    (r"^(\s+)(?!let |return |break|continue|use |pub |fn |if |else|match |for |while |loop|\}|\{|//|#)([a-zA-Z_\*\(&][^{}]*;)\s*$", r"\1;"),
 ]
 
 SKIP_LINE = re.compile(r"^\s*(//|#\[|log::|debug_assert|asan::|msan::|use |pub use |mod |\}|\{|$)|verif::|a10_verif|unreachable!|panic!|\.field\(|f\.debug_|write!\(|stringify!|concat!|=> \x22|const fn|\bconst [A-Z_]+:|doc\s*=")
@@ -201,12 +203,16 @@ def main():
     ap.add_argument("--seed", type=int, default=1)
     ap.add_argument("--files", default="")
     ap.add_argument("--all-checks", action="store_true")
+    ap.add_argument("--ops", default="", help="comma separated operator indices (default: all); -1 = the last one (statement deletion)")
     ap.add_argument("--keep", action="store_true")
     args = ap.parse_args()
     rng = random.Random(args.seed)
     files = [f for f in args.files.split(",") if f] or list(FILE_PROPS)
     os.makedirs(SCR, exist_ok=True)
     cands = candidates("/repo", files, rng)
+    if args.ops:
+        want = {int(x) % len(OPS) for x in args.ops.split(',')}
+        cands = [c for c in cands if c[2] in want]
     # spread over files: at most ceil(n / len(files)) * 2 per file
     per = {}
     jobs = []
